@@ -93,6 +93,11 @@ func init() {
 			kinds: []string{"none", "none", "permute"}})(cfg, emit); err != nil {
 			return err
 		}
+		// an attestation whose not-before lies within decades of the largest representable second
+		if err := worldGen("C04", 40, 800, genOpts{minDepth: 1, maxDepth: 3, sessions: true, sessionPct: 100, attVariant: 17,
+			kinds: []string{"none", "none", "permute"}})(cfg, emit); err != nil {
+			return err
+		}
 		// a did:web service: an attestation by the service's bare key on that key's own did:key is not the authority's
 		if err := worldGen("C04", 80, 1600, genOpts{minDepth: 1, maxDepth: 4, sessions: true, sessionPct: 100, attVariant: 16, webService: true,
 			kinds: []string{"none", "none", "permute"}})(cfg, emit); err != nil {
